@@ -891,13 +891,57 @@ def rule_r7(chk, prog):
             return False
         return True
 
+    def derived_or_entry(name, node):
+        """every definition reaching ``node`` is the round result (or a
+        re-duplication of it), or - for a generator built at the top of a
+        rotated loop - the parameter on the path that has not run a round
+        yet; after a round at least its result must reach"""
+        ds = (RD.get(node) or {}).get(name) or ()
+        if not ds:
+            return False
+        nonparam = [d for d in ds if d != 'param']
+        for d in nonparam:
+            a = d.ast
+            if not isinstance(a, ast.Assign):
+                return False
+            if a in rounds:
+                continue
+            v = a.value
+            if isinstance(v, ast.Call) and (call_name(v) or '').endswith(
+                    'reduplicate') and v.args and isinstance(
+                        v.args[0], ast.Name) and derived(v.args[0].id, d):
+                continue
+            return False
+        # the parameter may reach only along the path that has not run a
+        # round yet: no path from a round to here may leave the name alone
+        from ..cfg import stmt_effects
+        for r_ in rounds:
+            rn = cfg.node_of.get(id(r_))
+            if rn is None:
+                continue
+            if name in stmt_effects(rn)[0]:
+                continue  # the round itself rebinds the name
+            seen, work = set(), [rn]
+            while work:
+                x = work.pop()
+                for e in x.succ:
+                    d = e.dst
+                    if d is node:
+                        return False
+                    if d in seen or name in stmt_effects(d)[0]:
+                        continue
+                    seen.add(d)
+                    work.append(d)
+        return True
+
     n = 0
     for c in calls_in(loop):
         if call_name(c) == 'TaskGenerator' and c.args and isinstance(
                 c.args[0], ast.Name):
             n += 1
             node = expr_owner_node(cfg, c)
-            chk.check('C05.R7', where, c, derived(c.args[0].id, node),
+            chk.check('C05.R7', where, c, derived_or_entry(c.args[0].id,
+                                                           node),
                       'the generator of the next round can be built from '
                       'an input that is not the result of the round just '
                       'finished: adoptions of that round are dropped, the '
